@@ -112,10 +112,23 @@ pub fn parse_resp_frame(data: &[u8]) -> Result<Option<(RespFrame, usize)>> {
     parse_frame(data)
 }
 
+/// Aggregates nested deeper than this are refused (requests never nest; unbounded nesting
+/// would overflow the stack of the parsing thread)
+const MAX_NESTING_DEPTH: usize = 128;
+
 /// Internal frame parser
 fn parse_frame(data: &[u8]) -> Result<Option<(RespFrame, usize)>> {
+    parse_frame_at(data, 0)
+}
+
+/// Frame parser at a given nesting depth
+fn parse_frame_at(data: &[u8], depth: usize) -> Result<Option<(RespFrame, usize)>> {
     if data.is_empty() {
         return Ok(None);
+    }
+    
+    if depth > MAX_NESTING_DEPTH {
+        return Err(FerrousError::Protocol("Aggregate types nested too deeply".into()));
     }
     
     match data[0] {
@@ -123,12 +136,12 @@ fn parse_frame(data: &[u8]) -> Result<Option<(RespFrame, usize)>> {
         b'-' => parse_error(data),
         b':' => parse_integer(data),
         b'$' => parse_bulk_string(data),
-        b'*' => parse_array(data),
+        b'*' => parse_array(data, depth),
         b'_' => parse_null(data),
         b'#' => parse_boolean(data),
         b',' => parse_double(data),
-        b'%' => parse_map(data),
-        b'~' => parse_set(data),
+        b'%' => parse_map(data, depth),
+        b'~' => parse_set(data, depth),
         _ => Err(FerrousError::Protocol(format!(
             "Invalid RESP type byte: {}", data[0] as char
         ))),
@@ -203,7 +216,7 @@ fn parse_bulk_string(data: &[u8]) -> Result<Option<(RespFrame, usize)>> {
 }
 
 /// Parse an array: *2\r\n$3\r\nfoo\r\n$3\r\nbar\r\n
-fn parse_array(data: &[u8]) -> Result<Option<(RespFrame, usize)>> {
+fn parse_array(data: &[u8], depth: usize) -> Result<Option<(RespFrame, usize)>> {
     let (len_line, header_consumed) = match parse_line(data, 1)? {
         Some(v) => v,
         None => return Ok(None),
@@ -229,7 +242,7 @@ fn parse_array(data: &[u8]) -> Result<Option<(RespFrame, usize)>> {
     let mut total_consumed = header_consumed;
     
     for _ in 0..len {
-        match parse_frame(&data[total_consumed..])? {
+        match parse_frame_at(&data[total_consumed..], depth + 1)? {
             Some((frame, consumed)) => {
                 elements.push(frame);
                 total_consumed += consumed;
@@ -279,7 +292,7 @@ fn parse_double(data: &[u8]) -> Result<Option<(RespFrame, usize)>> {
 }
 
 /// Parse map (RESP3): %2\r\n+key1\r\n:1\r\n+key2\r\n:2\r\n
-fn parse_map(data: &[u8]) -> Result<Option<(RespFrame, usize)>> {
+fn parse_map(data: &[u8], depth: usize) -> Result<Option<(RespFrame, usize)>> {
     let (len_line, header_consumed) = match parse_line(data, 1)? {
         Some(v) => v,
         None => return Ok(None),
@@ -295,7 +308,7 @@ fn parse_map(data: &[u8]) -> Result<Option<(RespFrame, usize)>> {
     
     for _ in 0..len {
         // Parse key
-        let key = match parse_frame(&data[total_consumed..])? {
+        let key = match parse_frame_at(&data[total_consumed..], depth + 1)? {
             Some((frame, consumed)) => {
                 total_consumed += consumed;
                 frame
@@ -304,7 +317,7 @@ fn parse_map(data: &[u8]) -> Result<Option<(RespFrame, usize)>> {
         };
         
         // Parse value
-        let value = match parse_frame(&data[total_consumed..])? {
+        let value = match parse_frame_at(&data[total_consumed..], depth + 1)? {
             Some((frame, consumed)) => {
                 total_consumed += consumed;
                 frame
@@ -319,7 +332,7 @@ fn parse_map(data: &[u8]) -> Result<Option<(RespFrame, usize)>> {
 }
 
 /// Parse set (RESP3): ~2\r\n+elem1\r\n+elem2\r\n
-fn parse_set(data: &[u8]) -> Result<Option<(RespFrame, usize)>> {
+fn parse_set(data: &[u8], depth: usize) -> Result<Option<(RespFrame, usize)>> {
     let (len_line, header_consumed) = match parse_line(data, 1)? {
         Some(v) => v,
         None => return Ok(None),
@@ -334,7 +347,7 @@ fn parse_set(data: &[u8]) -> Result<Option<(RespFrame, usize)>> {
     let mut total_consumed = header_consumed;
     
     for _ in 0..len {
-        match parse_frame(&data[total_consumed..])? {
+        match parse_frame_at(&data[total_consumed..], depth + 1)? {
             Some((frame, consumed)) => {
                 elements.push(frame);
                 total_consumed += consumed;
